@@ -105,8 +105,11 @@ def shadow_pairs(prog, cls, model, st0, ref):
     it = Interp(prog, model, Limits(max_paths=2000, loop_unroll=2))
     outs = it.run(hit[1], cls, ref, [], st=st)
     outs = [o for o in outs if o.kind == "return"]
-    if len(outs) != 1:
-        raise AnalysisError("__enter__ of %s: expected exactly one normal path, got %d" % (cls.qualname, len(outs)))
+    if not outs:
+        raise AnalysisError("__enter__ of %s: no normal path" % cls.qualname)
+    # a restore that is conditional on some path (`if value != shadow: write`) still tells which field belongs to which register: the
+    # pairing is read off the path that writes the most; whether every path restores every register is rule R09.1's business
+    outs.sort(key=lambda o: -sum(1 for e in o.trace if e.kind in ("regwrite", "regwriten")))
     pairs, detail, offsets = {}, {}, {}
     s = outs[0].state
     for ev in outs[0].trace:
